@@ -85,6 +85,8 @@ type Oracles struct {
 	CrashEvery   int  // crash-point check every k steps (C03); 0 = off
 	Iter         bool // iterator battery (C13) every CmpEvery steps
 	CheckHandles bool // compare the view through every live handle too
+	QuietAfterEvict bool // no whole-state oracle (which would load every slab) between an eviction and the next commit
+	BlindDispose bool // C09: handed-back large values are sometimes removed by identifier without loading them
 	PopOrder     bool // C13: map PopIterate yields the reverse of the canonical order
 	Isolation    bool // C11: ops on detached containers leave every other tree byte-identical
 	EveryStep    func(e *Engine) error
@@ -116,6 +118,7 @@ type Engine struct {
 	Stats *CaseStats
 
 	nextNode   int
+	quiet      bool
 	plainMaps  int // nested plain maps created so far (see excludeF4)
 	step       int
 	curOp      *Op
@@ -836,6 +839,17 @@ func (e *Engine) handBack(s atree.Storable, m MV, keep bool, what string) error 
 func (e *Engine) handBack2(s atree.Storable, m MV, keep bool, popped bool, what string) error {
 	if s == nil {
 		return e.viol("%s: library handed back nil, model has %s", what, describeMV(m))
+	}
+	if e.Or.BlindDispose && nodeOf(m) == nil && mix64(uint64(e.step)*31+uint64(len(what)))%2 == 0 {
+		// a client that knows the handed-back value is a plain large value removes its slab by identifier
+		// without loading it (C09)
+		if id, ok := unwrapStorable(s).(atree.SlabIDStorable); ok {
+			e.Stats.label("removed_without_loading")
+			if err := e.St.Remove(atree.SlabID(id)); err != nil {
+				return e.viol("removing slab %s failed: %v", atree.SlabID(id), err)
+			}
+			return nil
+		}
 	}
 	v, err := s.StoredValue(e.St)
 	if err != nil {
